@@ -114,13 +114,18 @@ func RecordAfterSuccess(t *Truth) *Report {
 				rep.Counters["writes_after_success"]++
 				continue
 			}
+			// nothing was sent: legitimate only when nothing had to be sent, i.e. the integration has
+			// send_resolved off and the batch held no firing alert (the log is still updated)
+			if w.Firing == 0 {
+				if ep := r.EpochAt(e.T); ep != nil {
+					if rc := ep.Config.ReceiverByName(w.Receiver); rc != nil && w.Idx < len(rc.Integs) && !rc.Integs[w.Idx].SendResolved {
+						rep.Counters["writes_without_send_all_resolved"]++
+						continue
+					}
+				}
+			}
 			if f := lastFail[k]; f != nil {
 				rep.violate("record-after-success", "log-written-after-failed-delivery", map[string]any{"write": w, "failed": describe(r, f), "at": fmtT(r, e.T)})
-				continue
-			}
-			// no attempt at all: only legitimate when nothing had to be sent (send_resolved off, no firing alert)
-			if w.Firing == 0 {
-				rep.Counters["writes_without_send_all_resolved"]++
 				continue
 			}
 			rep.violate("record-after-success", "log-written-without-any-delivery", map[string]any{"write": w, "at": fmtT(r, e.T)})
